@@ -1,9 +1,9 @@
 //go:build verif
 
 // Contracts for the verification machinery in /verif (comment-only; excluded from normal builds).
-// Property C20 (RV64 emulator). Mode bv.
+// Property C20 (RV32 emulator). Mode bv.
 //
-// Oracle: RISC-V unprivileged ISA, RV64I and M. One step of execInst on a decoded instruction
+// Oracle: RISC-V unprivileged ISA, RV32I and M. One step of execInst on a decoded instruction
 // (mnemonic k fixed per obligation, register numbers and immediate symbolic, every register file, pc and
 // memory) must leave registers x1..x31, the pc and memory exactly as the ISA prescribes; x0 reads as zero
 // (the emulator clears RegX[0] at the start of every step, so "as subsequently read" excludes index 0).
@@ -11,7 +11,7 @@
 // (B/J), the 20-bit field (U), the shift amount (shift-immediates).
 // Floating point, CSR, ECALL/EBREAK and MULH* are reported unsupported by the emulator and not claimed.
 
-package riscv64
+package riscv32
 
 // ---- memory (assumed contract of the bus: little-endian byte memory, zero-extended loads)
 //@ ghost mem (Array (_ BitVec 64) (_ BitVec 8))
@@ -50,92 +50,71 @@ package riscv64
 //@ extern riscv.AsString
 //@   pure
 
-// ---- ISA semantics (RV64)
-//@ spec sx(imm int32) uint64 := uint64(int64(imm))
-//@ spec sx32(v uint32) uint64 := uint64(int64(int32(v)))
-//@ spec b2u(c bool) uint64 := ite(c, 1, 0)
+// ---- ISA semantics (RV32): registers are 32 bits wide; bus addresses are the zero-extended 32-bit address
+//@ spec sx(imm int32) uint32 := uint32(imm)
+//@ spec b2u(c bool) uint32 := ite(c, 1, 0)
+//@ spec ea(a uint32, imm int32) uint64 := uint64(a + sx(imm))
 
-// value written to rd (for instructions that write rd), given a = x[rs1], b = x[rs2], the immediate, the pc
-// and the value loaded from memory
-//@ spec rv_val(k abi.As, a uint64, b uint64, imm int32, pc uint64, m (Array (_ BitVec 64) (_ BitVec 8))) uint64 :=
-//@   ite(k == riscv.ALUI, sx32(uint32(imm) << 12),
-//@   ite(k == riscv.AAUIPC, pc + sx32(uint32(imm) << 12),
+//@ spec rv_val(k abi.As, a uint32, b uint32, imm int32, pc uint32, m (Array (_ BitVec 64) (_ BitVec 8))) uint32 :=
+//@   ite(k == riscv.ALUI, uint32(imm) << 12,
+//@   ite(k == riscv.AAUIPC, pc + (uint32(imm) << 12),
 //@   ite(k == riscv.AJAL || k == riscv.AJALR, pc + 4,
-//@   ite(k == riscv.ALB, uint64(int64(int8(ld8(m, a + sx(imm))))),
-//@   ite(k == riscv.ALH, uint64(int64(int16(ld16(m, a + sx(imm))))),
-//@   ite(k == riscv.ALW, sx32(uint32(ld32(m, a + sx(imm)))),
-//@   ite(k == riscv.ALBU, ld8(m, a + sx(imm)),
-//@   ite(k == riscv.ALHU, ld16(m, a + sx(imm)),
-//@   ite(k == riscv.ALWU, ld32(m, a + sx(imm)),
-//@   ite(k == riscv.ALD, ld64(m, a + sx(imm)),
+//@   ite(k == riscv.ALB, uint32(int32(int8(ld8(m, ea(a, imm))))),
+//@   ite(k == riscv.ALH, uint32(int32(int16(ld16(m, ea(a, imm))))),
+//@   ite(k == riscv.ALW, uint32(ld32(m, ea(a, imm))),
+//@   ite(k == riscv.ALBU, uint32(ld8(m, ea(a, imm))),
+//@   ite(k == riscv.ALHU, uint32(ld16(m, ea(a, imm))),
 //@   ite(k == riscv.AADDI, a + sx(imm),
-//@   ite(k == riscv.ASLTI, b2u(int64(a) < int64(imm)),
+//@   ite(k == riscv.ASLTI, b2u(int32(a) < imm),
 //@   ite(k == riscv.ASLTIU, b2u(a < sx(imm)),
 //@   ite(k == riscv.AXORI, a ^ sx(imm),
 //@   ite(k == riscv.AORI, a | sx(imm),
 //@   ite(k == riscv.AANDI, a & sx(imm),
-//@   ite(k == riscv.ASLLI, a << (uint64(imm) & 63),
-//@   ite(k == riscv.ASRLI, a >> (uint64(imm) & 63),
-//@   ite(k == riscv.ASRAI, uint64(int64(a) >> (uint64(imm) & 63)),
+//@   ite(k == riscv.ASLLI, a << (uint32(imm) & 31),
+//@   ite(k == riscv.ASRLI, a >> (uint32(imm) & 31),
+//@   ite(k == riscv.ASRAI, uint32(int32(a) >> (uint32(imm) & 31)),
 //@   ite(k == riscv.AADD, a + b,
 //@   ite(k == riscv.ASUB, a - b,
-//@   ite(k == riscv.ASLL, a << (b & 63),
-//@   ite(k == riscv.ASLT, b2u(int64(a) < int64(b)),
+//@   ite(k == riscv.ASLL, a << (b & 31),
+//@   ite(k == riscv.ASLT, b2u(int32(a) < int32(b)),
 //@   ite(k == riscv.ASLTU, b2u(a < b),
 //@   ite(k == riscv.AXOR, a ^ b,
-//@   ite(k == riscv.ASRL, a >> (b & 63),
-//@   ite(k == riscv.ASRA, uint64(int64(a) >> (b & 63)),
+//@   ite(k == riscv.ASRL, a >> (b & 31),
+//@   ite(k == riscv.ASRA, uint32(int32(a) >> (b & 31)),
 //@   ite(k == riscv.AOR, a | b,
 //@   ite(k == riscv.AAND, a & b,
-//@   ite(k == riscv.AADDIW, sx32(uint32(a) + uint32(imm)),
-//@   ite(k == riscv.ASLLIW, sx32(uint32(a) << (uint32(imm) & 31)),
-//@   ite(k == riscv.ASRLIW, sx32(uint32(a) >> (uint32(imm) & 31)),
-//@   ite(k == riscv.ASRAIW, sx32(uint32(int32(uint32(a)) >> (uint32(imm) & 31))),
-//@   ite(k == riscv.AADDW, sx32(uint32(a) + uint32(b)),
-//@   ite(k == riscv.ASUBW, sx32(uint32(a) - uint32(b)),
-//@   ite(k == riscv.ASLLW, sx32(uint32(a) << (uint32(b) & 31)),
-//@   ite(k == riscv.ASRLW, sx32(uint32(a) >> (uint32(b) & 31)),
-//@   ite(k == riscv.ASRAW, sx32(uint32(int32(uint32(a)) >> (uint32(b) & 31))),
 //@   ite(k == riscv.AMUL, a * b,
-//@   ite(k == riscv.ADIV, ite(b == 0, 0xffffffffffffffff, uint64(int64(a) / int64(b))),
-//@   ite(k == riscv.ADIVU, ite(b == 0, 0xffffffffffffffff, a / b),
-//@   ite(k == riscv.AREM, ite(b == 0, a, uint64(int64(a) % int64(b))),
+//@   ite(k == riscv.ADIV, ite(b == 0, 0xffffffff, uint32(int32(a) / int32(b))),
+//@   ite(k == riscv.ADIVU, ite(b == 0, 0xffffffff, a / b),
+//@   ite(k == riscv.AREM, ite(b == 0, a, uint32(int32(a) % int32(b))),
 //@   ite(k == riscv.AREMU, ite(b == 0, a, a % b),
-//@   ite(k == riscv.AMULW, sx32(uint32(a) * uint32(b)),
-//@   ite(k == riscv.ADIVW, ite(uint32(b) == 0, 0xffffffffffffffff, sx32(uint32(int32(uint32(a)) / int32(uint32(b))))),
-//@   ite(k == riscv.ADIVUW, ite(uint32(b) == 0, 0xffffffffffffffff, sx32(uint32(a) / uint32(b))),
-//@   ite(k == riscv.AREMW, ite(uint32(b) == 0, sx32(uint32(a)), sx32(uint32(int32(uint32(a)) % int32(uint32(b))))),
-//@   ite(k == riscv.AREMUW, ite(uint32(b) == 0, sx32(uint32(a)), sx32(uint32(a) % uint32(b))),
-//@   0))))))))))))))))))))))))))))))))))))))))))))))))
+//@   0))))))))))))))))))))))))))))))))
 //@ spec writes_rd(k abi.As) bool := !(k == riscv.ABEQ || k == riscv.ABNE || k == riscv.ABLT || k == riscv.ABGE || k == riscv.ABLTU || k == riscv.ABGEU ||
-//@      k == riscv.ASB || k == riscv.ASH || k == riscv.ASW || k == riscv.ASD || k == riscv.AFENCE)
-//@ spec rv_pc(k abi.As, a uint64, b uint64, imm int32, pc uint64) uint64 :=
+//@      k == riscv.ASB || k == riscv.ASH || k == riscv.ASW || k == riscv.AFENCE)
+//@ spec rv_pc(k abi.As, a uint32, b uint32, imm int32, pc uint32) uint32 :=
 //@   ite(k == riscv.AJAL, pc + sx(imm),
-//@   ite(k == riscv.AJALR, (a + sx(imm)) & 0xfffffffffffffffe,
+//@   ite(k == riscv.AJALR, (a + sx(imm)) & 0xfffffffe,
 //@   ite(k == riscv.ABEQ, ite(a == b, pc + sx(imm), pc + 4),
 //@   ite(k == riscv.ABNE, ite(a != b, pc + sx(imm), pc + 4),
-//@   ite(k == riscv.ABLT, ite(int64(a) < int64(b), pc + sx(imm), pc + 4),
-//@   ite(k == riscv.ABGE, ite(int64(a) >= int64(b), pc + sx(imm), pc + 4),
+//@   ite(k == riscv.ABLT, ite(int32(a) < int32(b), pc + sx(imm), pc + 4),
+//@   ite(k == riscv.ABGE, ite(int32(a) >= int32(b), pc + sx(imm), pc + 4),
 //@   ite(k == riscv.ABLTU, ite(a < b, pc + sx(imm), pc + 4),
 //@   ite(k == riscv.ABGEU, ite(a >= b, pc + sx(imm), pc + 4),
 //@   pc + 4))))))))
-//@ spec rv_mem(k abi.As, a uint64, b uint64, imm int32, m (Array (_ BitVec 64) (_ BitVec 8))) (Array (_ BitVec 64) (_ BitVec 8)) :=
-//@   ite(k == riscv.ASB, st8(m, a + sx(imm), b),
-//@   ite(k == riscv.ASH, st16(m, a + sx(imm), b),
-//@   ite(k == riscv.ASW, st32(m, a + sx(imm), b),
-//@   ite(k == riscv.ASD, st64(m, a + sx(imm), b), m))))
-// operand ranges the decoder guarantees
+//@ spec rv_mem(k abi.As, a uint32, b uint32, imm int32, m (Array (_ BitVec 64) (_ BitVec 8))) (Array (_ BitVec 64) (_ BitVec 8)) :=
+//@   ite(k == riscv.ASB, st8(m, ea(a, imm), uint64(b)),
+//@   ite(k == riscv.ASH, st16(m, ea(a, imm), uint64(b)),
+//@   ite(k == riscv.ASW, st32(m, ea(a, imm), uint64(b)), m)))
 //@ spec imm_ok(k abi.As, imm int32) bool :=
 //@   ite(k == riscv.ALUI || k == riscv.AAUIPC, 0 <= imm && imm < (1 << 20),
-//@   ite(k == riscv.ASLLI || k == riscv.ASRLI || k == riscv.ASRAI, 0 <= imm && imm < 64,
-//@   ite(k == riscv.ASLLIW || k == riscv.ASRLIW || k == riscv.ASRAIW, 0 <= imm && imm < 32,
+//@   ite(k == riscv.ASLLI || k == riscv.ASRLI || k == riscv.ASRAI, 0 <= imm && imm < 32,
 //@   ite(k == riscv.AJAL, -(1 << 20) <= imm && imm < (1 << 20) && imm & 1 == 0,
 //@   ite(k == riscv.ABEQ || k == riscv.ABNE || k == riscv.ABLT || k == riscv.ABGE || k == riscv.ABLTU || k == riscv.ABGEU, -(1 << 12) <= imm && imm < (1 << 12) && imm & 1 == 0,
-//@   -(1 << 11) <= imm && imm < (1 << 11))))))
-//@ spec xr(p *CPU, i uint32) uint64 := ite(i == 0, 0, old(p.RegX[i]))
+//@   -(1 << 11) <= imm && imm < (1 << 11)))))
+//@ spec xr(p *CPU, i uint32) uint32 := ite(i == 0, 0, old(p.RegX[i]))
 
 //@ func (*CPU).execInst
-//@   foreach k in {riscv.ALUI, riscv.AAUIPC, riscv.AJAL, riscv.AJALR, riscv.ABEQ, riscv.ABNE, riscv.ABLT, riscv.ABGE, riscv.ABLTU, riscv.ABGEU, riscv.ALB, riscv.ALH, riscv.ALW, riscv.ALBU, riscv.ALHU, riscv.ALWU, riscv.ALD, riscv.ASB, riscv.ASH, riscv.ASW, riscv.ASD, riscv.AADDI, riscv.ASLTI, riscv.ASLTIU, riscv.AXORI, riscv.AORI, riscv.AANDI, riscv.ASLLI, riscv.ASRLI, riscv.ASRAI, riscv.AADD, riscv.ASUB, riscv.ASLL, riscv.ASLT, riscv.ASLTU, riscv.AXOR, riscv.ASRL, riscv.ASRA, riscv.AOR, riscv.AAND, riscv.AFENCE, riscv.AADDIW, riscv.ASLLIW, riscv.ASRLIW, riscv.ASRAIW, riscv.AADDW, riscv.ASUBW, riscv.ASLLW, riscv.ASRLW, riscv.ASRAW, riscv.AMUL, riscv.ADIV, riscv.ADIVU, riscv.AREM, riscv.AREMU, riscv.AMULW, riscv.ADIVW, riscv.ADIVUW, riscv.AREMW, riscv.AREMUW}
+//@   foreach k in {riscv.ALUI, riscv.AAUIPC, riscv.AJAL, riscv.AJALR, riscv.ABEQ, riscv.ABNE, riscv.ABLT, riscv.ABGE, riscv.ABLTU, riscv.ABGEU, riscv.ALB, riscv.ALH, riscv.ALW, riscv.ALBU, riscv.ALHU, riscv.ASB, riscv.ASH, riscv.ASW, riscv.AADDI, riscv.ASLTI, riscv.ASLTIU, riscv.AXORI, riscv.AORI, riscv.AANDI, riscv.ASLLI, riscv.ASRLI, riscv.ASRAI, riscv.AADD, riscv.ASUB, riscv.ASLL, riscv.ASLT, riscv.ASLTU, riscv.AXOR, riscv.ASRL, riscv.ASRA, riscv.AOR, riscv.AAND, riscv.AFENCE, riscv.AMUL, riscv.ADIV, riscv.ADIVU, riscv.AREM, riscv.AREMU}
 //@   requires[bind] as == k
 //@   requires p != nil && arg != nil && bus != nil
 //@   requires arg.Rd < 32 && arg.Rs1 < 32 && arg.Rs2 < 32 && imm_ok(k, arg.Imm)
